@@ -4,6 +4,8 @@ from . import c06
 
 
 def run(check, pool, Task):
+    from . import validate
+    validate.apply(check, ['rtree', 'bounds_kernels'])
     thorough = check.tier == 'thorough'
     cap = 1800 if thorough else 700
     check.bounds.update({'rows/partitions': '<= 3 rows in <= 3 partitions (4 rows thorough), incl. empty partitions and partitions holding only inert rows',
